@@ -180,9 +180,9 @@ PROPS = {
     'C01': strat_prop('C01'),
     'C03': dict(strat_prop('C03', ['tsops']), compare=compare_any, nontrivial=any_nontrivial, rule=RUN_RULE + TSOPS_RULE),
     'C06': strat_prop('C06'),
-    'C07': dict(strat_prop('C07', ['tsops']), compare=compare_any, nontrivial=any_nontrivial, rule=RUN_RULE + TSOPS_RULE),
+    'C07': dict(strat_prop('C07', ['tsops', 'faults']), compare=compare_any, nontrivial=any_nontrivial, rule=RUN_RULE + TSOPS_RULE + ' || fault scripts (mode faults) incl. the sequence-budget edge family: TCP, 0..2 probes sent, then 508..513 consecutive address-in-use outcomes, then further ttls in the same round (the budget of 512 is used up exactly / almost / beyond)'),
     'C08': strat_prop('C08'),
-    'C09': dict(strat_prop('C09', ['faults']), rule=RUN_RULE + ' || bounded-exhaustive fault scripts: ICMP and TCP, 2 rounds, every combination of send outcome {sent, transient failure, address in use (TCP), fatal} and receive outcome {timeout, genuine response, target reply, fatal, duplicate} over the first 3 (thorough: 5) calls', exhaustive={'quick': False, 'thorough': False}),
+    'C09': dict(strat_prop('C09', ['faults']), rule=RUN_RULE + ' || bounded-exhaustive fault scripts: ICMP and TCP, 2 rounds, every combination of send outcome {sent, transient failure, address in use (TCP), fatal} and receive outcome {timeout, genuine response, target reply, fatal, duplicate} over the first 3 (thorough: 5) calls; plus the sequence-budget edge family (TCP, 0..2 probes sent, 508..513 consecutive address-in-use outcomes, further ttls in the same round)', exhaustive={'quick': False, 'thorough': False}),
     'C13': dict(
         crates=['hcore'], modes=[('hcore', 'c13')],
         nontrivial=c13_nontrivial,
@@ -388,4 +388,20 @@ PROPS['C04'] = dict(
     rule=_c04_pkt['rule'] + ' || ' + RECV_RULE + 'C04 oracle for the receive path: the call panicked (arithmetic overflow checks on, as in the harness profile); non-trivial = a response was decoded',
     explanation=_c04_pkt.get('explanation', '') + '; receive path: field x buffer-length sweeps are complete for the listed value sets, contents are sampled, the theorems cover every byte string of every length',
     timeout={'quick': 600, 'thorough': 3000},
+)
+
+
+# ---- C09: which socket errors are transient (ProbeFailed), which re-issue (AddressInUse) and which are fatal is decided by the
+# error mapping of the net layer: the injected-socket-error lines of mode c11 (real Channel::send_probe vs the model of
+# Net/Dispatch*.v / ChannelSend.v) join the strategy-level runs, whose send outcomes are already classified.
+def is_c11_line(inp):
+    return inp.split(' ', 1)[0] in ('c11', 'c11fill')
+
+
+_c09 = PROPS['C09']
+PROPS['C09'] = dict(
+    _c09, modes=_c09['modes'] + [('hcore', 'c11')],
+    compare=lambda inp, a, b: compare_c11(inp, a, b) if is_c11_line(inp) else _c09['compare'](inp, a, b),
+    nontrivial=lambda inp, o: c11_nontrivial(inp, o) if is_c11_line(inp) else _c09['nontrivial'](inp, o),
+    rule=_c09['rule'] + ' || the classification of socket errors into transient / address-in-use / fatal: mode c11 (every socket call kind x 12 injected error codes x every cell through the real Channel::send_probe, compared with the model of the send side)',
 )
